@@ -1,6 +1,6 @@
 (* C09 — proofs, part 2: the S-lane dense LU commutes with taking a lane. *)
 From Coq Require Import List Arith Bool Lia.
-From DuneV Require Import C09_Model C09_Spec C09_Proofs.
+From DuneV Require Import Params_gen C09_Model C09_Spec C09_Proofs.
 Import ListNotations.
 
 (* ------------------------------------------------------------------------------------------ *)
@@ -400,7 +400,7 @@ Section Final.
     | C09_FMatrixError _ => exists l e, l < W /\ ssolve dp n (LM l A) (LV l b) = C09_FMatrixError e
     end.
   Proof.
-    intros. unfold c09_v_solve, c09_s_solve.
+    intros. unfold c09_v_solve, c09_s_solve, c09_param_throw_early_solve.
     pose proof (proj2 (P_lu_lanes dp n A b)) as P.
     destruct (vlu true dp n A b) as [st'|st'].
     - intros l Hl. rewrite (P l Hl). f_equal. unfold c09_lane_st; simpl. symmetry.
@@ -432,7 +432,7 @@ Section Final.
     | C09_FMatrixError _ => exists l e, l < W /\ sinvert dp n (LM l A) = C09_FMatrixError e
     end.
   Proof.
-    intros. unfold c09_v_invert, c09_s_invert.
+    intros. unfold c09_v_invert, c09_s_invert, c09_param_throw_early_invert.
     pose proof (proj2 (P_lu_lanes dp n A [])) as P.
     destruct (vlu true dp n A []) as [st'|st'].
     - intros l Hl. specialize (P l Hl). simpl in P. rewrite P. f_equal. unfold c09_lane_st; simpl. symmetry.
@@ -447,7 +447,7 @@ Section Final.
   (* determinant (select applied after the product): EVERY lane, singular ones included *)
   Lemma P_det_lanes : forall dp n A l, l < W -> nth l (vdet dp n A) zero = sdet dp n (LM l A).
   Proof.
-    intros dp n A l Hl. unfold c09_v_det, c09_s_det.
+    intros dp n A l Hl. unfold c09_v_det, c09_s_det, c09_param_throw_early_det.
     destruct (proj1 (P_lu_lanes dp n A []) l Hl) as [st' [s' [R1 [R2 [Ok St]]]]].
     simpl in R2. rewrite R1, R2. rewrite (lane_vcond W l Hl). rewrite Ok.
     destruct (c09_sok T s') eqn:E.
@@ -558,3 +558,328 @@ Section NormLanes.
     now apply lane_vmap.
   Qed.
 End NormLanes.
+
+(* ------------------------------------------------------------------------------------------ *)
+(* closed forms for rows() = 1, 2, 3 and the full dispatch                                     *)
+(* ------------------------------------------------------------------------------------------ *)
+Section HomClosed.
+  Variables X Y : Type.
+  Variables (xadd xsub xmul xdiv : X -> X -> X) (xneg : X -> X) (xzero xone : X).
+  Variables (yadd ysub ymul ydiv : Y -> Y -> Y) (yneg : Y -> Y) (yzero yone : Y).
+  Variable h : X -> Y.
+  Hypothesis h_add : forall a b, h (xadd a b) = yadd (h a) (h b).
+  Hypothesis h_sub : forall a b, h (xsub a b) = ysub (h a) (h b).
+  Hypothesis h_mul : forall a b, h (xmul a b) = ymul (h a) (h b).
+  Hypothesis h_div : forall a b, h (xdiv a b) = ydiv (h a) (h b).
+  Hypothesis h_neg : forall a, h (xneg a) = yneg (h a).
+  Hypothesis h_zero : h xzero = yzero.
+  Hypothesis h_one : h xone = yone.
+  Let hm (A : list (list X)) : list (list Y) := map (map h) A.
+  Let G := hom_get X Y xzero yzero h h_zero.
+  Let GV := hom_vget X Y xzero yzero h h_zero.
+
+  Ltac push := unfold hm; repeat first [rewrite h_add | rewrite h_sub | rewrite h_mul | rewrite h_div | rewrite h_neg | rewrite h_one | rewrite G | rewrite GV].
+
+  Lemma hom_det1 : forall A, h (c09_g_det1 X xzero A) = c09_g_det1 Y yzero (hm A).
+  Proof. intros. unfold c09_g_det1. now push. Qed.
+  Lemma hom_det2 : forall A, h (c09_g_det2 X xsub xmul xzero A) = c09_g_det2 Y ysub ymul yzero (hm A).
+  Proof. intros. unfold c09_g_det2. now push. Qed.
+  Lemma hom_det3 : forall A, h (c09_g_det3 X xadd xsub xmul xzero A) = c09_g_det3 Y yadd ysub ymul yzero (hm A).
+  Proof. intros. unfold c09_g_det3. cbv zeta. now push. Qed.
+  Lemma hom_solve1 : forall A b, map h (c09_g_solve1 X xdiv xzero A b) = c09_g_solve1 Y ydiv yzero (hm A) (map h b).
+  Proof. intros. unfold c09_g_solve1. simpl. now push. Qed.
+  Lemma hom_solve2 : forall A b, map h (c09_g_solve2 X xsub xmul xdiv xzero xone A b) = c09_g_solve2 Y ysub ymul ydiv yzero yone (hm A) (map h b).
+  Proof. intros. unfold c09_g_solve2. cbv zeta. simpl. now push. Qed.
+  Lemma hom_solve3 : forall A b, map h (c09_g_solve3 X xadd xsub xmul xdiv xzero A b) = c09_g_solve3 Y yadd ysub ymul ydiv yzero (hm A) (map h b).
+  Proof. intros. unfold c09_g_solve3, c09_g_det3. cbv zeta. simpl. now push. Qed.
+  Lemma hom_invert1 : forall A, hm (c09_g_invert1 X xdiv xzero xone A) = c09_g_invert1 Y ydiv yzero yone (hm A).
+  Proof. intros. unfold c09_g_invert1. unfold hm at 1. simpl. now push. Qed.
+  Lemma hom_invert2 : forall A, hm (c09_g_invert2 X xsub xmul xdiv xneg xzero xone A) = c09_g_invert2 Y ysub ymul ydiv yneg yzero yone (hm A).
+  Proof. intros. unfold c09_g_invert2. cbv zeta. unfold hm at 1. simpl. now push. Qed.
+  Lemma hom_invert3 : forall A, hm (c09_g_invert3 X xadd xsub xmul xdiv xneg xzero xone A) = c09_g_invert3 Y yadd ysub ymul ydiv yneg yzero yone (hm A).
+  Proof. intros. unfold c09_g_invert3. cbv zeta. unfold hm at 1. simpl. now push. Qed.
+End HomClosed.
+
+Section FullLanes.
+  Variables T U : Type.
+  Variables add sub mul div : T -> T -> T.
+  Variable neg : T -> T.
+  Variable absr : T -> U.
+  Variable gt : U -> U -> bool.
+  Variable nz : U -> bool.
+  Variables zero one mone : T.
+  Variable W : nat.
+  Notation LV := (c09_lane_vec T zero).
+  Notation LM := (c09_lane_mat T zero).
+  Notation hl l := (fun v : list T => nth l v zero).
+
+  Lemma P_det_full_lanes : forall dp n A l, l < W ->
+    nth l (c09_v_det_full T U add sub mul div absr gt nz zero one mone W dp n A) zero
+    = c09_s_det_full T U add sub mul div absr gt nz zero one mone dp n (LM l A).
+  Proof.
+    intros dp n A l Hl. unfold c09_v_det_full, c09_s_det_full.
+    destruct n as [|[|[|[|n]]]]; try (now apply P_det_lanes); unfold c09_lane_mat, c09_lane_vec.
+    - apply (hom_det1 (list T) T _ zero (hl l) (lane_vzero T zero W l Hl)).
+    - apply (hom_det2 (list T) T _ _ _ sub mul zero (hl l) (lane_vsub T sub zero W l Hl) (lane_vmul T mul zero W l Hl) (lane_vzero T zero W l Hl)).
+    - apply (hom_det3 (list T) T _ _ _ _ add sub mul zero (hl l)); intros; try (now apply lane_vmap2);
+        try apply (lane_vsub T sub zero W l Hl); try apply (lane_vmul T mul zero W l Hl); apply (lane_vzero T zero W l Hl).
+  Qed.
+
+  Lemma P_solve_full_lanes : forall dp n A b,
+    match c09_v_solve_full T U add sub mul div absr gt nz zero one mone W dp n A b with
+    | C09_Ok x => forall l, l < W -> c09_s_solve_full T U add sub mul div absr gt nz zero one mone dp n (LM l A) (LV l b) = C09_Ok (LV l x)
+    | C09_FMatrixError _ => exists l e, l < W /\ c09_s_solve_full T U add sub mul div absr gt nz zero one mone dp n (LM l A) (LV l b) = C09_FMatrixError e
+    end.
+  Proof.
+    intros dp n A b. unfold c09_v_solve_full, c09_s_solve_full.
+    destruct n as [|[|[|[|n]]]]; try (now apply P_solve_lanes); intros l Hl; f_equal; symmetry; unfold c09_lane_mat, c09_lane_vec.
+    - apply (hom_solve1 (list T) T _ _ div zero (hl l) (lane_vdiv T div zero W l Hl) (lane_vzero T zero W l Hl)).
+    - apply (hom_solve2 (list T) T _ _ _ _ _ sub mul div zero one (hl l) (lane_vsub T sub zero W l Hl) (lane_vmul T mul zero W l Hl)
+               (lane_vdiv T div zero W l Hl) (lane_vzero T zero W l Hl) (lane_vone T zero one W l Hl)).
+    - apply (hom_solve3 (list T) T _ _ _ _ _ add sub mul div zero (hl l)); intros; try (now apply lane_vmap2);
+        try apply (lane_vsub T sub zero W l Hl); try apply (lane_vmul T mul zero W l Hl); try apply (lane_vdiv T div zero W l Hl);
+        apply (lane_vzero T zero W l Hl).
+  Qed.
+
+  Lemma P_invert_full_lanes : forall dp n A,
+    match c09_v_invert_full T U add sub mul div neg absr gt nz zero one mone W dp n A with
+    | C09_Ok B => forall l, l < W -> c09_s_invert_full T U add sub mul div neg absr gt nz zero one mone dp n (LM l A) = C09_Ok (LM l B)
+    | C09_FMatrixError _ => exists l e, l < W /\ c09_s_invert_full T U add sub mul div neg absr gt nz zero one mone dp n (LM l A) = C09_FMatrixError e
+    end.
+  Proof.
+    intros dp n A. unfold c09_v_invert_full, c09_s_invert_full.
+    destruct n as [|[|[|[|n]]]]; try (now apply P_invert_lanes); intros l Hl; f_equal; symmetry; unfold c09_lane_mat, c09_lane_vec.
+    - apply (hom_invert1 (list T) T _ _ _ div zero one (hl l) (lane_vdiv T div zero W l Hl) (lane_vzero T zero W l Hl) (lane_vone T zero one W l Hl)).
+    - apply (hom_invert2 (list T) T _ _ _ _ _ _ sub mul div neg zero one (hl l)); intros; try (now apply lane_vmap);
+        try apply (lane_vsub T sub zero W l Hl); try apply (lane_vmul T mul zero W l Hl); try apply (lane_vdiv T div zero W l Hl);
+        try apply (lane_vzero T zero W l Hl); apply (lane_vone T zero one W l Hl).
+    - apply (hom_invert3 (list T) T _ _ _ _ _ _ _ add sub mul div neg zero one (hl l)); intros; try (now apply lane_vmap2); try (now apply lane_vmap);
+        try apply (lane_vsub T sub zero W l Hl); try apply (lane_vmul T mul zero W l Hl); try apply (lane_vdiv T div zero W l Hl);
+        try apply (lane_vzero T zero W l Hl); apply (lane_vone T zero one W l Hl).
+  Qed.
+End FullLanes.
+
+(* ------------------------------------------------------------------------------------------ *)
+(* further products and norms                                                                  *)
+(* ------------------------------------------------------------------------------------------ *)
+Section HomProducts.
+  Variables X R X' R' : Type.
+  Variables (xadd xsub xmul : X -> X -> X) (xzero : X) (xabs xabs2 : X -> R) (radd rmul rdiv rmax : R -> R -> R) (rsqrt : R -> R) (rzero rone : R).
+  Variables (yadd ysub ymul : X' -> X' -> X') (yzero : X') (yabs yabs2 : X' -> R') (sadd smul sdiv smax : R' -> R' -> R') (ssqrt : R' -> R') (szero sone : R').
+  Variables (h : X -> X') (k : R -> R').
+  Hypothesis h_add : forall a b, h (xadd a b) = yadd (h a) (h b).
+  Hypothesis h_sub : forall a b, h (xsub a b) = ysub (h a) (h b).
+  Hypothesis h_mul : forall a b, h (xmul a b) = ymul (h a) (h b).
+  Hypothesis h_zero : h xzero = yzero.
+  Hypothesis k_abs : forall a, k (xabs a) = yabs (h a).
+  Hypothesis k_abs2 : forall a, k (xabs2 a) = yabs2 (h a).
+  Hypothesis k_add : forall a b, k (radd a b) = sadd (k a) (k b).
+  Hypothesis k_mul : forall a b, k (rmul a b) = smul (k a) (k b).
+  Hypothesis k_div : forall a b, k (rdiv a b) = sdiv (k a) (k b).
+  Hypothesis k_max : forall a b, k (rmax a b) = smax (k a) (k b).
+  Hypothesis k_sqrt : forall a, k (rsqrt a) = ssqrt (k a).
+  Hypothesis k_zero : k rzero = szero.
+  Hypothesis k_one : k rone = sone.
+
+  Lemma hom_rowacc_add : forall row x acc, h (c09_g_rowacc_add X xadd xmul row x acc) = c09_g_rowacc_add X' yadd ymul (map h row) (map h x) (h acc).
+  Proof. unfold c09_g_rowacc_add. induction row as [|e row IH]; intros [|y x] acc; simpl; auto. rewrite IH. now rewrite h_add, h_mul. Qed.
+  Lemma hom_rowacc_sub : forall row x acc, h (c09_g_rowacc_sub X xsub xmul row x acc) = c09_g_rowacc_sub X' ysub ymul (map h row) (map h x) (h acc).
+  Proof. unfold c09_g_rowacc_sub. induction row as [|e row IH]; intros [|y x] acc; simpl; auto. rewrite IH. now rewrite h_sub, h_mul. Qed.
+
+  Lemma hom_umv : forall A x y, map h (c09_g_umv X xadd xmul A x y) = c09_g_umv X' yadd ymul (map (map h) A) (map h x) (map h y).
+  Proof. unfold c09_g_umv. induction A as [|row A IH]; intros x [|e y]; simpl; auto. rewrite IH. now rewrite hom_rowacc_add. Qed.
+  Lemma hom_mmv : forall A x y, map h (c09_g_mmv X xsub xmul A x y) = c09_g_mmv X' ysub ymul (map (map h) A) (map h x) (map h y).
+  Proof. unfold c09_g_mmv. induction A as [|row A IH]; intros x [|e y]; simpl; auto. rewrite IH. now rewrite hom_rowacc_sub. Qed.
+  Lemma hom_usmv : forall alpha A x y,
+    map h (c09_g_usmv X xadd xmul alpha A x y) = c09_g_usmv X' yadd ymul (h alpha) (map (map h) A) (map h x) (map h y).
+  Proof.
+    unfold c09_g_usmv. induction A as [|row A IH]; intros x [|e y]; simpl; auto. rewrite IH. f_equal.
+    clear IH. revert x e. induction row as [|a row IHr]; intros [|b x] e; simpl; auto. rewrite IHr. now rewrite h_add, !h_mul.
+  Qed.
+  Lemma hom_mtv : forall n A x, map h (c09_g_mtv X xadd xmul xzero n A x) = c09_g_mtv X' yadd ymul yzero n (map (map h) A) (map h x).
+  Proof.
+    intros. unfold c09_g_mtv. rewrite c09_map_tab. apply c09_tab_ext. intros i _.
+    assert (G : forall A x acc, h (fold_left (fun a p => xadd a (xmul (nth i (fst p) xzero) (snd p))) (combine A x) acc)
+               = fold_left (fun a p => yadd a (ymul (nth i (fst p) yzero) (snd p))) (combine (map (map h) A) (map h x)) (h acc)).
+    { induction A0 as [|row A0 IH]; intros [|b x0] acc; simpl; auto. rewrite IH. rewrite h_add, h_mul. rewrite <- h_zero. now rewrite map_nth. }
+    rewrite G. now rewrite h_zero.
+  Qed.
+  Lemma hom_dot : forall x y, h (c09_g_dot X xadd xmul xzero x y) = c09_g_dot X' yadd ymul yzero (map h x) (map h y).
+  Proof.
+    intros. unfold c09_g_dot. rewrite <- h_zero. generalize xzero. revert y.
+    induction x as [|a x IH]; intros [|b y] acc; simpl; auto. rewrite IH. now rewrite h_add, h_mul.
+  Qed.
+  Lemma hom_two_norm2 : forall v, k (c09_g_two_norm2 X R xabs2 radd rzero v) = c09_g_two_norm2 X' R' yabs2 sadd szero (map h v).
+  Proof. intros. unfold c09_g_two_norm2. rewrite <- k_zero. generalize rzero. induction v; simpl; intros; auto. rewrite IHv. now rewrite k_add, k_abs2. Qed.
+  Lemma hom_two_norm : forall v, k (c09_g_two_norm X R xabs2 radd rsqrt rzero v) = c09_g_two_norm X' R' yabs2 sadd ssqrt szero (map h v).
+  Proof. intros. unfold c09_g_two_norm. now rewrite k_sqrt, hom_two_norm2. Qed.
+  Lemma hom_frobenius_norm2 : forall A, k (c09_g_frobenius_norm2 X R xabs2 radd rzero A) = c09_g_frobenius_norm2 X' R' yabs2 sadd szero (map (map h) A).
+  Proof.
+    intros. unfold c09_g_frobenius_norm2.
+    assert (G : forall A acc, k (fold_left (fun s row => radd s (c09_g_two_norm2 X R xabs2 radd rzero row)) A acc)
+               = fold_left (fun s row => sadd s (c09_g_two_norm2 X' R' yabs2 sadd szero row)) (map (map h) A) (k acc)).
+    { induction A0; simpl; intros; auto. rewrite IHA0. now rewrite k_add, hom_two_norm2. }
+    rewrite G. now rewrite k_zero.
+  Qed.
+  Lemma hom_frobenius_norm : forall A, k (c09_g_frobenius_norm X R xabs2 radd rsqrt rzero A) = c09_g_frobenius_norm X' R' yabs2 sadd ssqrt szero (map (map h) A).
+  Proof. intros. unfold c09_g_frobenius_norm. now rewrite k_sqrt, hom_frobenius_norm2. Qed.
+  Lemma hom_vec_infnorm : forall hasNaN v,
+    k (c09_g_vec_infnorm X R xabs radd rmul rdiv rmax rzero rone hasNaN v) = c09_g_vec_infnorm X' R' yabs sadd smul sdiv smax szero sone hasNaN (map h v).
+  Proof.
+    intros. unfold c09_g_vec_infnorm. destruct hasNaN.
+    - assert (G : forall v s, (fun p => (k (fst p), k (snd p)))
+                 (fold_left (fun (s : R * R) e => let a := xabs e in (rmax a (fst s), radd (snd s) a)) v s)
+               = fold_left (fun (s : R' * R') e => let a := yabs e in (smax a (fst s), sadd (snd s) a)) (map h v) (k (fst s), k (snd s))).
+      { induction v0; simpl; intros; auto. rewrite IHv0. simpl. now rewrite k_max, k_add, k_abs. }
+      specialize (G v (rzero, rone)). simpl in G. rewrite k_zero, k_one in G.
+      rewrite k_mul, k_div. pose proof (f_equal fst G) as G1. pose proof (f_equal snd G) as G2. simpl in G1, G2. now rewrite G1, G2.
+    - rewrite <- k_zero. generalize rzero. induction v; simpl; intros; auto. rewrite IHv. now rewrite k_max, k_abs.
+  Qed.
+End HomProducts.
+
+Section ProductLanes.
+  Variables T U : Type.
+  Variables (add sub mul : T -> T -> T) (zero : T).
+  Variables (absr abs2 : T -> U).
+  Variables (uadd umul udiv : U -> U -> U) (ult : U -> U -> bool) (usqrt : U -> U) (uzero uone : U).
+  Variable W : nat.
+  Notation LV := (c09_lane_vec T zero).
+  Notation LM := (c09_lane_mat T zero).
+  Notation nU := (c09_nU T U zero absr).
+
+  Ltac lanes := intros; first [now apply lane_vmap2 | now apply lane_vmap | now apply lane_vbcast].
+
+  Lemma P_products_lanes : forall (A : list (list (list T))) (x y : list (list T)) (alpha : list T) (n l : nat), l < W ->
+    LV l (c09_v_umv T add mul zero W A x y) = c09_s_umv T add mul (LM l A) (LV l x) (LV l y) /\
+    LV l (c09_v_mmv T sub mul zero W A x y) = c09_s_mmv T sub mul (LM l A) (LV l x) (LV l y) /\
+    LV l (c09_v_usmv T add mul zero W alpha A x y) = c09_s_usmv T add mul (nth l alpha zero) (LM l A) (LV l x) (LV l y) /\
+    LV l (c09_v_mtv T add mul zero W n A x) = c09_s_mtv T add mul zero n (LM l A) (LV l x) /\
+    nth l (c09_v_dot T add mul zero W x y) zero = c09_s_dot T add mul zero (LV l x) (LV l y).
+  Proof.
+    intros A x y alpha n l Hl. unfold c09_lane_vec, c09_lane_mat. repeat split.
+    - apply (hom_umv (list T) T _ _ add mul (fun v => nth l v zero)); lanes.
+    - apply (hom_mmv (list T) T _ _ sub mul (fun v => nth l v zero)); lanes.
+    - apply (hom_usmv (list T) T _ _ add mul (fun v => nth l v zero)); lanes.
+    - apply (hom_mtv (list T) T _ _ _ add mul zero (fun v => nth l v zero)); lanes.
+    - apply (hom_dot (list T) T _ _ _ add mul zero (fun v => nth l v zero)); lanes.
+  Qed.
+
+  Lemma P_norms_lanes : forall (A : list (list (list T))) (x : list (list T)) (hasNaN : bool) (l : nat), l < W ->
+    nth l (c09_v_one_norm T U zero absr uadd uzero W x) nU = c09_s_one_norm T U absr uadd uzero (LV l x) /\
+    nth l (c09_v_two_norm2 T U zero absr abs2 uadd uzero W x) nU = c09_s_two_norm2 T U abs2 uadd uzero (LV l x) /\
+    nth l (c09_v_two_norm T U zero absr abs2 uadd usqrt uzero W x) nU = c09_s_two_norm T U abs2 uadd usqrt uzero (LV l x) /\
+    nth l (c09_v_frobenius_norm2 T U zero absr abs2 uadd uzero W A) nU = c09_s_frobenius_norm2 T U abs2 uadd uzero (LM l A) /\
+    nth l (c09_v_frobenius_norm T U zero absr abs2 uadd usqrt uzero W A) nU = c09_s_frobenius_norm T U abs2 uadd usqrt uzero (LM l A) /\
+    nth l (c09_v_vec_infnorm T U zero absr uadd umul udiv ult uzero uone W hasNaN x) nU
+      = c09_s_vec_infnorm T U absr uadd umul udiv ult uzero uone hasNaN (LV l x).
+  Proof.
+    intros A x hasNaN l Hl. unfold c09_lane_vec, c09_lane_mat. repeat split.
+    - apply (hom_one_norm (list T) (list U) T U _ _ _ absr uadd uzero (fun v => nth l v zero) (fun v => nth l v nU)); lanes.
+    - apply (hom_two_norm2 (list T) (list U) T U _ _ _ abs2 uadd uzero (fun v => nth l v zero) (fun v => nth l v nU)); lanes.
+    - apply (hom_two_norm (list T) (list U) T U _ _ _ _ abs2 uadd usqrt uzero (fun v => nth l v zero) (fun v => nth l v nU)); lanes.
+    - apply (hom_frobenius_norm2 (list T) (list U) T U _ _ _ abs2 uadd uzero (fun v => nth l v zero) (fun v => nth l v nU)); lanes.
+    - apply (hom_frobenius_norm (list T) (list U) T U _ _ _ _ abs2 uadd usqrt uzero (fun v => nth l v zero) (fun v => nth l v nU)); lanes.
+    - apply (hom_vec_infnorm (list T) (list U) T U _ _ _ _ _ _ _ absr uadd umul udiv (c09_umax U ult) uzero uone
+               (fun v => nth l v zero) (fun v => nth l v nU)); lanes.
+  Qed.
+End ProductLanes.
+
+(* ------------------------------------------------------------------------------------------ *)
+(* facts the code establishes itself: pivot rows in range, mask accumulation                   *)
+(* ------------------------------------------------------------------------------------------ *)
+Section Ranges.
+  Variables T U : Type.
+  Variables sub mul div : T -> T -> T.
+  Variable absr : T -> U.
+  Variable gt : U -> U -> bool.
+  Variable nz : U -> bool.
+  Variables zero one mone : T.
+  Variable W : nat.
+
+  (* per lane, the pivot search returns its start value or one of the rows it looked at *)
+  Lemma pivsearch_choice : forall A i ks pm imax l, l < W ->
+    let r := snd (c09_v_pivsearch T U absr gt zero W A i ks pm imax) in
+    nth l r 0 = nth l imax 0 \/ In (nth l r 0) ks.
+  Proof.
+    induction ks as [|k ks IH]; simpl; intros pm imax l Hl; auto.
+    destruct (IH (c09_vcond W (c09_dU T U absr zero)
+                    (c09_vmap2 W (c09_dU T U absr zero) (c09_dU T U absr zero) gt (c09_vmap W zero absr (c09_vget T zero W A k i)) pm)
+                    (c09_vmap W zero absr (c09_vget T zero W A k i)) pm)
+                 (c09_vcond W 0 (c09_vmap2 W (c09_dU T U absr zero) (c09_dU T U absr zero) gt (c09_vmap W zero absr (c09_vget T zero W A k i)) pm)
+                    (c09_vbcast W k) imax) l Hl) as [E|I]; auto.
+    rewrite E. rewrite (lane_vcond W l Hl). rewrite (lane_vbcast W l Hl).
+    destruct (nth l _ false); auto.
+  Qed.
+
+  (* luDecomposition: the pivot row of every lane at step i is a row i <= p < n *)
+  Lemma P_pivot_in_range : forall A n i pm l, i < n -> l < W ->
+    let p := nth l (snd (c09_v_pivsearch T U absr gt zero W A i (seq (S i) (n - S i)) pm (c09_vbcast W i))) 0 in
+    i <= p < n.
+  Proof.
+    intros A n i pm l Hi Hl. cbv zeta.
+    destruct (pivsearch_choice A i (seq (S i) (n - S i)) pm (c09_vbcast W i) l Hl) as [E|I].
+    - cbv zeta in E. rewrite E, (lane_vbcast W l Hl). lia.
+    - apply in_seq in I. lia.
+  Qed.
+
+  Notation vstep := (c09_v_pivot_step T U mul absr gt nz zero one mone W).
+  Notation velim := (c09_v_elim T sub mul div zero W).
+  Notation vloop := (c09_v_loop T U sub mul div absr gt nz zero one mone W).
+
+  (* the pivot record: entries stay row numbers below n *)
+  Definition piv_ok (n : nat) (st : c09_vst T) : Prop :=
+    forall r l, r < n -> l < W -> nth l (nth r (c09_vpiv T st) []) 0 < n.
+
+  Lemma vstep_piv_ok : forall dp n i st, i < n -> piv_ok n st -> piv_ok n (vstep dp n i st).
+  Proof.
+    intros dp n i st Hi H r l Hr Hl. unfold c09_v_pivot_step. destruct dp; simpl; [|now apply H].
+    rewrite c09_tab_nth by assumption. destruct (r =? i) eqn:E; [|now apply H].
+    rewrite (lane_vcond W l Hl). destruct (nth l _ false).
+    - apply H; auto.
+    - pose proof (P_pivot_in_range (c09_vA T st) n i (c09_vmap W zero absr (c09_vget T zero W (c09_vA T st) i i)) l Hi Hl) as P.
+      cbv zeta in P. lia.
+  Qed.
+
+  Lemma vloop_piv_ok : forall te dp n rem i st, i + rem <= n -> piv_ok n st ->
+    match vloop te dp n rem i st with C09_Ok st' => piv_ok n st' | C09_FMatrixError st' => piv_ok n st' end.
+  Proof.
+    induction rem; simpl; intros i st Hn H; auto.
+    pose proof (vstep_piv_ok dp n i st ltac:(lia) H) as H1.
+    assert (H2 : piv_ok n (velim n i (vstep dp n i st))) by exact H1.
+    destruct te.
+    - destruct (negb (c09_alltrue (c09_vok T (vstep dp n i st)))); auto. apply IHrem; auto. lia.
+    - destruct (negb (c09_anytrue (c09_vok T (vstep dp n i st)))); auto. apply IHrem; auto. lia.
+  Qed.
+
+  (* invert: every pivot index the column un-permutation reads is a column number below n *)
+  Lemma P_pivot_record_in_range : forall te dp n A b,
+    match c09_v_lu T U sub mul div absr gt nz zero one mone W te dp n A b with
+    | C09_Ok st' | C09_FMatrixError st' => forall r l, r < n -> l < W -> nth l (nth r (c09_vpiv T st') []) 0 < n
+    end.
+  Proof.
+    intros. unfold c09_v_lu.
+    assert (I : piv_ok n (c09_v_init T one W n A b)).
+    { intros r l Hr Hl. unfold c09_v_init; simpl. rewrite c09_tab_nth by assumption. now rewrite (lane_vbcast W l Hl). }
+    pose proof (vloop_piv_ok te dp n n 0 (c09_v_init T one W n A b) ltac:(lia) I) as P.
+    destruct (vloop te dp n n 0 (c09_v_init T one W n A b)); exact P.
+  Qed.
+
+  (* nonsingularLanes only ever loses lanes: a lane marked singular at some step is singular in the result of determinant's LU run,
+     and the determinant of that lane is exactly 0 *)
+  Lemma P_mask_accumulates : forall l dp n rem i st, l < W -> nth l (c09_vok T st) false = false ->
+    exists st', vloop false dp n rem i st = C09_Ok st' /\ nth l (c09_vok T st') false = false.
+  Proof. intros. now apply vloop_false_ok_mono. Qed.
+
+  Lemma P_det_singular_lane_zero : forall dp n A l s', l < W ->
+    c09_s_lu T U sub mul div absr gt nz zero one mone false dp n (c09_lane_mat T zero l A) [] = C09_Ok s' -> c09_sok T s' = false ->
+    nth l (c09_v_det T U sub mul div absr gt nz zero one mone W dp n A) zero = zero.
+  Proof.
+    intros dp n A l s' Hl R Hs. rewrite (P_det_lanes T U sub mul div absr gt nz zero one mone W dp n A l Hl).
+    unfold c09_s_det, c09_param_throw_early_det. rewrite R. now rewrite Hs.
+  Qed.
+End Ranges.
+
+Lemma P_params_match_model :
+  c09_param_closed_form_max_det = 3 /\ c09_param_closed_form_max_solve = 3 /\ c09_param_closed_form_max_invert = 3 /\
+  c09_param_throw_early_solve = true /\ c09_param_throw_early_invert = true /\ c09_param_throw_early_det = false.
+Proof. repeat split. Qed.
